@@ -1316,8 +1316,11 @@ impl Database {
             .map(|(idx, _)| idx)
             .collect();
 
+        // the one-pass path rewrites the row only: it cannot serve statements that also have
+        // to maintain a secondary index on a modified column
         let can_onepass = pk_lookup_info.is_some()
             && unique_col_indices.is_empty()
+            && !needs_old_row_for_secondary_index
             && !has_toast
             && deferred_assignments.is_empty();
 
